@@ -332,3 +332,16 @@ Proof.
       destruct (gexec n p a en s) as [v en1 s1|en1 s1|v en1 s1| |]; cbn in H |- *; auto; try tauto; try apply ok_panic.
     destruct H as (Hv & H1 & H2). split; [reflexivity|]. split; auto. apply env_rel_set; auto.
 Qed.
+
+(** the refinement theorem specialised to a token-level run that returns true *)
+Lemma refine_done p n e s ts ts' : TR s ts -> texec n p e [] ts = TVal (VB true) [] ts' ->
+  match gexec n p e [] s with
+  | RPanic => True
+  | RVal v _ s' => v = VB true /\ Toks s' (tks ts') /\ nerr s' = terr ts' /\ after_err s' = tafter ts'
+  | _ => False
+  end.
+Proof.
+  intros R0 Ht. pose proof (refine p n e [] [] s ts R0 (Forall2_nil _)) as P. rewrite Ht in P.
+  destruct (gexec n p e [] s) as [v en' s'| | | |]; cbn [prim_ok] in P; auto.
+  destruct P as (Hv & _ & (T' & E' & A')). destruct v as [b|c]; cbn [val_rel] in Hv; [subst b|contradiction]. auto.
+Qed.
